@@ -27,6 +27,13 @@ Theorem C48_all_spec_inv : forall main rest a, Inv main a ->
   NoDup (map fst (all main rest a)) /\ forall h v, In (h, v) (all main rest a) <-> get main a h = Some v.
 Proof. exact all_spec. Qed.
 
+(* Intersect (keep = other.Has) and Sub (keep = not other.Has): the result is again a well-formed
+   set holding exactly the bindings of [a] whose handle is kept (so C48_all_spec_inv applies to it) *)
+Theorem C48_intersect_sub_spec : forall main rest a keep, Inv main a ->
+  Inv main (restrict main rest a keep) /\
+  forall h, get main (restrict main rest a keep) h = if keep h then get main a h else None.
+Proof. exact restrict_spec. Qed.
+
 Theorem C48_oracle_sound : forall c, check_C48 c = true -> case_spec c.
 Proof. exact check_C48_sound. Qed.
 
@@ -34,4 +41,5 @@ Print Assumptions C48_get_set_delete_spec.
 Print Assumptions C48_all_nodup.
 Print Assumptions C48_len_eq_card.
 Print Assumptions C48_all_spec_inv.
+Print Assumptions C48_intersect_sub_spec.
 Print Assumptions C48_oracle_sound.
